@@ -53,6 +53,55 @@ def to_sym(e, env):
     raise KeyError(s)
 
 
+BLOCKS = ("self._dPhidPsi", "self._dPhiPsi", "self._PhiPsi", "self._k2PhiPsi", "self._massMatrix")
+
+
+def block_lists(fn):
+    """self._X = sparse.diags(<list>, ...)  ->  {self._X: list name}"""
+    out = {}
+    for n in ast.walk(fn):
+        if isinstance(n, ast.Assign) and src(n.targets[0]) in BLOCKS:
+            v = n.value
+            while isinstance(v, ast.Subscript):       # restriction to the unknowns' rows/columns
+                v = v.value
+            if isinstance(v, ast.Call) and src(v.func).endswith("diags") and v.args and isinstance(v.args[0], ast.Name):
+                out[src(n.targets[0])] = v.args[0].id
+    return out
+
+
+def block_vector(e, stiff=None):
+    """matrix expression over the assembled blocks -> {block: coefficient}; self._stiffnessMatrix expands to `stiff`"""
+    table = {}
+    ex = sp.expand(_sym(e, table))
+    inv = {v: k for k, v in table.items()}
+    vec = {}
+    for term in sp.Add.make_args(ex):
+        c_, syms = term.as_coeff_mul()
+        if len(syms) != 1 or syms[0] not in inv:
+            raise KeyError(str(term))
+        nm = inv[syms[0]]
+        if nm == "self._stiffnessMatrix" and stiff is not None:
+            for k, v in stiff.items():
+                vec[k] = vec.get(k, 0) + c_ * v
+        elif nm in BLOCKS:
+            vec[nm] = vec.get(nm, 0) + c_
+        else:
+            raise KeyError(nm)
+    return {k: v for k, v in vec.items() if v != 0}
+
+
+def operator_blocks(chk):
+    """coefficients of the blocks in DiffEqSolver's theta-independent operator, or None"""
+    fn = chk.func(U.POISSON, f"{CLS}.__init__")
+    d = [n for n in ast.walk(fn) if isinstance(n, ast.Assign) and src(n.targets[0]) == "self._stiffnessMatrix"]
+    if len(d) != 1:
+        return None
+    try:
+        return block_vector(d[0].value)
+    except KeyError:
+        return None
+
+
 def assembly(chk):
     fn = chk.func(U.POISSON, f"{CLS}.__init__")
     # innermost assembly loop
@@ -91,6 +140,7 @@ def assembly(chk):
     }
     env = {}
     seen = set()
+    block_got = {}
     for st in lp.body:
         if not isinstance(st, ast.Assign):
             continue
@@ -118,6 +168,13 @@ def assembly(chk):
                        func=f"{CLS}.__init__")
                 continue
             ok = row == "i" and alg_equal(sp.expand(got), sp.expand(spec[key]))
+            block_got[key] = sp.expand(got)
+            if not ok and row == "i" and name in ("dPhidPsiCoeffs", "dPhiPsiCoeffs", "PhiPsiCoeffs") and \
+                    alg_equal(sp.expand(got), sp.expand(-spec[key])):
+                # a block stored with the opposite sign is a convention; the assembled operator decides (F4-weak-form-operator)
+                chk.ob("F4-weak-form", st, f"{name}[{diag}][{row}]", True, what[name] + " - stored with the opposite sign; the sign is "
+                       "accounted for where the operator is assembled", file=U.POISSON, func=f"{CLS}.__init__")
+                continue
             chk.ob("F4-weak-form", st, f"{name}[{diag}][{row}]", ok, what[name] if ok else
                    f"integrand {sp.expand(got)} differs from the weak form {sp.expand(spec[key])} ({what[name]})",
                    file=U.POISSON, func=f"{CLS}.__init__", facts={"code": str(sp.expand(got)), "spec": str(sp.expand(spec[key]))})
@@ -138,17 +195,34 @@ def assembly(chk):
         "points, self._weights = leggauss(n)" in s
     chk.pat("F4-quadrature-points", fn, "Gauss-Legendre points mapped to the cells", okq,
             "points = cell midpoint + reference point x half width, weights x half width", file=U.POISSON, func=f"{CLS}.__init__")
-    # operator composition
-    okc = "self._stiffnessMatrix = self._dPhidPsi + self._dPhiPsi + self._PhiPsi" in s
-    sm_def = [n for n in ast.walk(fn) if isinstance(n, ast.Assign) and src(n.targets[0]) == "self._stiffnessMatrix"]
-    bad = None
-    if sm_def and not okc:
-        terms = set(src(sm_def[0].value).replace(" ", "").split("+"))
-        if terms and terms <= {"self._dPhidPsi", "self._dPhiPsi", "self._PhiPsi", "self._k2PhiPsi", "self._massMatrix"} \
-                and terms != {"self._dPhidPsi", "self._dPhiPsi", "self._PhiPsi"}:
-            bad = f"theta-independent operator is the sum of {sorted(terms)}, not dPhidPsi + dPhiPsi + PhiPsi"
-    chk.pat("F4-operator", fn, "self._stiffnessMatrix", okc, "theta-independent operator = dPhidPsi + dPhiPsi + PhiPsi", bad,
-            file=U.POISSON, func=f"{CLS}.__init__")
+    # operator composition: the assembled theta-independent operator, block by block
+    vec = operator_blocks(chk)
+    lists = block_lists(fn)
+    ok, why = None, "operator composition not extractable"
+    if vec is not None and all(a_ in lists for a_ in vec):
+        ok = True
+        parts = []
+        for diag in (UP, LOW):
+            tot = 0
+            want = spec[("dPhidPsiCoeffs", diag)] + spec[("dPhiPsiCoeffs", diag)] + spec[("PhiPsiCoeffs", UP)]
+            for a_, c_ in vec.items():
+                key = (lists[a_], diag) if (lists[a_], diag) in block_got else (lists[a_], UP)
+                if key not in block_got:
+                    ok = None
+                    why = f"integrand of block {a_} not extracted"
+                    break
+                tot += c_ * block_got[key]
+            if ok is None:
+                break
+            if not alg_equal(sp.expand(tot), sp.expand(want)):
+                ok = False
+                parts.append(f"{'upper' if diag == UP else 'lower'} diagonals: {sp.expand(tot)} instead of {sp.expand(want)}")
+        if ok:
+            why = ("sum over blocks (with their signs) of the assembled integrands = -A phi' psi' r - A phi' psi + B phi' psi r + C phi psi r "
+                   f"on upper and lower diagonals; blocks {dict((k, str(v)) for k, v in vec.items())}")
+        elif ok is False:
+            why = "the assembled theta-independent operator is not the weak form of A phi'' + B phi' + C phi: " + "; ".join(parts)
+    chk.ob("F4-weak-form-operator", fn, "self._stiffnessMatrix = sum of blocks", ok, why, file=U.POISSON, func=f"{CLS}.__init__")
     # diagonals -> matrices with the same offsets
     okd = all(f"sparse.diags({nm}, diag_range, shape, 'csc')" in s.replace("\n", " ").replace("  ", " ")
               or f"sparse.diags({nm}, diag_range," in s for nm in ("massCoeffs", "k2PhiPsiCoeffs", "PhiPsiCoeffs", "dPhidPsiCoeffs", "dPhiPsiCoeffs")) \
@@ -159,18 +233,25 @@ def assembly(chk):
 
 def per_mode(chk):
     fn_init = chk.func(U.POISSON, f"{CLS}.__init__")
+    # the numbers tested against the Neumann lists are the transform's own mode numbers
+    from .C15 import mode_numbers
+    mode_numbers(chk)
     # Neumann membership tests read the mode numbers before they are squared
     sq = [n for n in fn_init.body if isinstance(n, ast.AugAssign) and src(n.target) == "self._mVals" and isinstance(n.op, ast.Mult)]
     uses = [n for n in fn_init.body if isinstance(n, ast.Assign) and src(n.targets[0]) in ("self._coeff_range", "self._stiffness_range")]
-    ok = len(sq) == 1 and len(uses) == 2 and all(u.lineno < sq[0].lineno for u in uses) and src(sq[0].value) == "self._mVals"
+    sq += [n for n in fn_init.body if isinstance(n, ast.Assign) and src(n.targets[0]) == "self._mVals" and "self._mVals" in src(n.value)]
+    ok = len(uses) == 2 and all(u.lineno < q_.lineno for u in uses for q_ in sq)
     bad = None
-    if len(sq) == 1 and len(uses) == 2 and any(u.lineno > sq[0].lineno for u in uses):
+    if len(uses) == 2 and any(u.lineno > q_.lineno for u in uses for q_ in sq):
         bad = "mode numbers are squared before the per-mode boundary tables are built: Neumann membership is tested on m^2"
-    if len(sq) > 1:
-        bad = "mode numbers are squared more than once"
-    chk.pat("F4-mode-bookkeeping", sq[0] if sq else fn_init, "self._mVals *= self._mVals", ok,
-            "boundary-condition membership is decided on the mode numbers m, then m is squared exactly once", bad,
+    chk.pat("F4-mode-bookkeeping", sq[0] if sq else fn_init, "Neumann membership decided on m, before any squaring of self._mVals", ok,
+            "boundary-condition membership is decided on the signed mode numbers m", bad,
             file=U.POISSON, func=f"{CLS}.__init__")
+    # the derived solver's m=0 operator is built from the same blocks (their signs are this class's convention)
+    from .C15 import m0_operator
+    m0_operator(chk)
+    if mode_power(chk) < 3:
+        raise AnalysisError("C14: fewer than the three per-mode operator sites found")
     for u in uses:
         v = src(u.value).replace(" ", "").replace("\n", "")
         ok_l = "iinlNeumannIdx" in v and "iinuNeumannIdx" in v and "foriinself._mVals" in v
@@ -207,6 +288,7 @@ def per_mode(chk):
         # operator for mode I
         txt = src(lp).replace(" ", "").replace("\n", "")
         want = "(self._stiffnessMatrix-self._mVals[I]*self._k2PhiPsi)[self._stiffness_range[I],self._stiffness_range[I]]"
+        txt = txt.replace("self._mVals[I]**2*", "self._mVals[I]*").replace("self._mVals[I]*self._mVals[I]*", "self._mVals[I]*")
         oko = want in txt and src(lp.iter).replace(" ", "") in ("enumerate(rho.getGlobalIdxVals(0))", "enumerate(phi.getGlobalIdxVals(0))") \
             and src(lp.target).replace(" ", "") in ("(i,I)", "i,I")
         bad = None
@@ -228,11 +310,117 @@ def per_mode(chk):
     chk.pat("F4-mode-solve", sm, "_solveMode: coeffs[range_I] = S^-1 M[range_I,:] c(rho)", ok,
             "right-hand side is the mass matrix applied to the spline coefficients of rho; the solution fills the mode's unknowns, "
             "Dirichlet entries keep their zero", file=U.POISSON, func=f"{CLS}._solveMode")
+    # every (mode, z) line of the output is written: no path of the z loop skips the store into phi
+    for q_ in (f"{CLS}._solveMode", f"{CLS}._solveModeFunc"):
+        f_ = chk.func(U.POISSON, q_)
+        stores = [n for n in ast.walk(f_) if isinstance(n, ast.Assign) and isinstance(n.targets[0], ast.Subscript)
+                  and src(n.targets[0].value).startswith("phi.get1DSlice(")]
+        zl = [n for n in f_.body if isinstance(n, ast.For) and stores and any(stores[-1] is x for x in ast.walk(n))]
+        if len(zl) != 1 or not stores:
+            chk.ob("F4-output-complete", f_, f"{q_}: store into phi.get1DSlice(i, j) inside the z loop", None,
+                   "z loop / output store not found", file=U.POISSON, func=q_)
+            continue
+        st_ = stores[-1]
+        inner = {id(x) for n in ast.walk(zl[0]) if n is not zl[0] and isinstance(n, (ast.For, ast.While)) for x in ast.walk(n)}
+        skips = [n for n in ast.walk(zl[0]) if isinstance(n, (ast.Continue, ast.Break, ast.Return)) and id(n) not in inner
+                 and n.lineno < st_.lineno]
+        direct = any(st_ is x for x in zl[0].body)
+        chk.ob("F4-output-complete", skips[0] if skips else st_, f"{q_}: every z line of the mode is written", (not skips and direct) if (skips or direct) else None,
+               "the store into the output line is an unconditional statement of the z loop" if not skips and direct else
+               (f"`{src(parent(skips[0]))[:80]}` leaves the z loop iteration before the output line is written: phi keeps whatever the buffer "
+                "held (the previous solve), so the result is no longer the solution for this rho (not linear in rho, not zero for rho = 0)"
+                if skips else "the store into the output line is conditional"), file=U.POISSON, func=q_)
     ok2 = "self._real_spline.coeffs[:]=np.real(self._coeffs)" in t and "self._real_spline.coeffs[:]=np.imag(self._coeffs)" in t and \
         "phi.get1DSlice(i,j)[:]=self._realMem+1j*self._imagMem" in t and t.count("self._real_spline.eval_vector(phi.getCoordVals(2),") == 2
     chk.pat("F4-mode-solve", sm, "_solveMode: evaluation at the radial nodes", ok2,
             "real and imaginary parts are evaluated from the full coefficient vector at the grid's r coordinates and recombined",
             file=U.POISSON, func=f"{CLS}._solveMode")
+
+
+def _sym(e, table):
+    """arithmetic expression -> sympy, every name/attribute/subscript an opaque symbol keyed by its source"""
+    import sympy as sp
+    if isinstance(e, ast.Constant) and isinstance(e.value, (int, float)):
+        return sp.nsimplify(e.value)
+    if isinstance(e, ast.BinOp) and type(e.op) in (ast.Add, ast.Sub, ast.Mult, ast.Div, ast.Pow):
+        a, b = _sym(e.left, table), _sym(e.right, table)
+        return {ast.Add: a + b, ast.Sub: a - b, ast.Mult: a * b, ast.Div: a / b, ast.Pow: a ** b}[type(e.op)]
+    if isinstance(e, ast.UnaryOp) and isinstance(e.op, ast.USub):
+        return -_sym(e.operand, table)
+    if isinstance(e, (ast.Name, ast.Attribute, ast.Subscript)):
+        return table.setdefault(src(e), sp.Symbol("s%d" % len(table)))
+    raise KeyError(src(e))
+
+
+def mode_power(chk):
+    """the coefficient of the k2 block in every per-mode operator is -(m_I)^2, counting the squaring done once in the constructor"""
+    import sympy as sp
+    fn_init = chk.func(U.POISSON, f"{CLS}.__init__")
+    init_exp, unknown = 1, []
+    for n in ast.walk(fn_init):
+        tgt = None
+        if isinstance(n, ast.AugAssign) and src(n.target) == "self._mVals":
+            if isinstance(n.op, ast.Mult) and src(n.value) == "self._mVals":
+                init_exp *= 2
+            elif isinstance(n.op, ast.Pow) and isinstance(n.value, ast.Constant) and isinstance(n.value.value, int):
+                init_exp *= n.value.value
+            else:
+                unknown.append(n)
+        elif isinstance(n, ast.Assign) and src(n.targets[0]) == "self._mVals" and "self._mVals" in src(n.value):
+            v = src(n.value).replace(" ", "")
+            if v in ("self._mVals**2", "self._mVals*self._mVals", "np.square(self._mVals)"):
+                init_exp *= 2
+            else:
+                unknown.append(n)
+        elif isinstance(n, (ast.Assign, ast.AugAssign)):
+            for t in (n.targets if isinstance(n, ast.Assign) else [n.target]):
+                if isinstance(t, ast.Subscript) and src(t.value) == "self._mVals":
+                    unknown.append(n)
+    nsites = 0
+    for cls, m in ((CLS, "solveEquation"), (CLS, "solveEquationForFunction"), ("QuasiNeutralitySolver", "solveEquation")):
+        fn = chk.func(U.POISSON, f"{cls}.{m}")
+        sites = []
+        for n in ast.walk(fn):
+            if isinstance(n, ast.BinOp) and any(src(x) == "self._k2PhiPsi" for x in ast.walk(n)) and \
+                    not (isinstance(parent(n), ast.BinOp) and any(src(x) == "self._k2PhiPsi" for x in ast.walk(parent(n)))):
+                sites.append(n)
+        if not sites:
+            chk.ob("F4-mode-power", fn, f"{cls}.{m}: coefficient of the k2 block", None, "no expression involving self._k2PhiPsi found",
+                   file=U.POISSON, func=f"{cls}.{m}")
+            continue
+        for site in sites:
+            nsites += 1
+            ok, why = None, ""
+            try:
+                table = {}
+                ex = sp.expand(_sym(site, table))
+                K = table["self._k2PhiPsi"]
+                co = sp.Poly(ex, K).coeff_monomial(K)
+                ms = [v for k, v in table.items() if k.startswith("self._mVals[")]
+                if unknown:
+                    why = f"self._mVals is modified by `{src(unknown[0])[:60]}` in the constructor: power of m not determined"
+                elif len(ms) != 1:
+                    why = f"coefficient of the k2 block is `{co}`: not a power of one mode number"
+                else:
+                    M = ms[0]
+                    pw = sp.degree(co, M) if co.has(M) else 0
+                    eff = pw * init_exp
+                    idx = [k for k in table if k.startswith("self._mVals[")][0]
+                    if sp.simplify(co + M ** pw) == 0 and eff == 2:
+                        ok, why = True, (f"the k2 block enters with -({idx})^{pw}, the mode numbers being raised to the power {init_exp} once in the "
+                                         "constructor: -m^2 D in total")
+                    elif sp.simplify(co + M ** pw) == 0 or sp.simplify(co - M ** pw) == 0:
+                        ok = False
+                        sign = "-" if sp.simplify(co + M ** pw) == 0 else "+"
+                        why = (f"the k2 block enters with {sign}({idx})^{pw} and the constructor raises the mode numbers to the power {init_exp}: "
+                               f"the operator contains {sign}m^{eff} D instead of -m^2 D" +
+                               (" (+m and -m get different operators)" if eff % 2 else ""))
+                    else:
+                        why = f"coefficient of the k2 block is `{co}`"
+            except (KeyError, sp.PolynomialError) as e:
+                why = f"operator expression `{src(site)[:70]}` not an arithmetic expression: {e}"
+            chk.ob("F4-mode-power", site, f"{cls}.{m}: {src(site)[:70]}", ok, why, file=U.POISSON, func=f"{cls}.{m}")
+    return nsites
 
 
 def refusal(chk):
